@@ -15,7 +15,7 @@ open Depccg Search
 theorem first_parse_optimal : FirstParseOptimalStatement := by
   intro pick g s cfg hp hs hpen hu hn t rest hres d hd
   obtain ⟨-, -, hopt⟩ := Opt1.final (pick := pick) (g := g) hp hu hs hpen hn
-  change sortDesc (loop pick g s cfg cfg.maxStep (init s cfg)).goal = t :: rest at hres
+  change sortDesc (loop pick g s cfg cfg.maxStep (init pick s cfg)).goal = t :: rest at hres
   rcases hopt with ⟨hg, -, -⟩ | ⟨t', hg, hbest⟩
   · rw [hg, sortDesc_nil] at hres; cases hres
   · rw [hg, sortDesc_singleton] at hres
@@ -27,11 +27,11 @@ theorem first_parse_optimal : FirstParseOptimalStatement := by
 theorem failure_only_if_none : FailureOnlyIfNoneStatement := by
   intro pick g s cfg hp hs hpen hu hn hres hsteps
   obtain ⟨hok, -, hopt⟩ := Opt1.final (pick := pick) (g := g) hp hu hs hpen hn
-  change sortDesc (loop pick g s cfg cfg.maxStep (init s cfg)).goal = [] at hres
-  change (loop pick g s cfg cfg.maxStep (init s cfg)).steps < cfg.maxStep at hsteps
+  change sortDesc (loop pick g s cfg cfg.maxStep (init pick s cfg)).goal = [] at hres
+  change (loop pick g s cfg cfg.maxStep (init pick s cfg)).steps < cfg.maxStep at hsteps
   rintro ⟨d, hd⟩
   rcases hopt with ⟨hg, hnf, hh⟩ | ⟨t', hg, -⟩
-  · rcases loop_stuck_or_fuel (pick := pick) (g := g) (s := s) (cfg := cfg) cfg.maxStep (init s cfg)
+  · rcases loop_stuck_or_fuel (pick := pick) (g := g) (s := s) (cfg := cfg) cfg.maxStep (init pick s cfg)
       with hstuck | hfuel
     · rcases stepWith_none_iff.1 hstuck with hlen | hpick
       · rw [hg, hn] at hlen
@@ -39,7 +39,7 @@ theorem failure_only_if_none : FailureOnlyIfNoneStatement := by
       · obtain ⟨a, ha, -⟩ := root_bound hu hs hpen hok hh hnf hd
         rw [hp.eq_nil hpick] at ha
         cases ha
-    · have h0 : (init s cfg).steps = 0 := rfl
+    · have h0 : (init pick s cfg).steps = 0 := rfl
       omega
   · rw [hg, sortDesc_singleton] at hres
     cases hres
@@ -65,8 +65,8 @@ example : (run g s cfg1).results.map (fun r => (r.d, r.prio)) =
 /-- … and no licensed complete parse of the sentence scores more than 17 -/
 example : ∀ d, LicensedRoot g s cfg1 d → modelScore s cfg1 d ≤ 17 := by
   intro d hd
-  have hprio : (run g s cfg1).results.map Item.prio = [17] := by decide
-  cases hres : (run g s cfg1).results with
+  have hprio : (runWith pickFirstMax g s cfg1).results.map Item.prio = [17] := by decide
+  cases hres : (runWith pickFirstMax g s cfg1).results with
   | nil => rw [hres] at hprio; cases hprio
   | cons t rest =>
     rw [hres] at hprio
